@@ -89,7 +89,15 @@ class C05(Prop):
                 ops.append(['send_request', 'm', []])
             nreq = len(ops)
             if p != 'v1' and rng.random() < 0.5:
-                ops.append(['send_batch', [['c', [], True], ['d', [], rng.random() < 0.5], ['e', [], True]]])
+                second = rng.random() < 0.5
+                ops.append(['send_batch', [['c', [], True], ['d', [], second], ['e', [], True]]])
+                if rng.random() < 0.3:
+                    # the batch's awaiter gives up, then the complete batch response arrives late
+                    ids = [nreq, nreq + 1, nreq + 2] if second else [nreq, nreq + 1]
+                    ops.append(['abandon', 0, True])
+                    late = [dict({'jsonrpc': '2.0', 'id': i}, **rng.choice([{'result': i}, {'error': {'code': 3, 'message': 'x'}}])) for i in ids]
+                    rng.shuffle(late)
+                    ops.append(['receive', list(json.dumps(late).encode())])
             if nreq and rng.random() < 0.3:
                 # a caller gives up, then a late response for its id arrives (result / error / malformed)
                 j = rng.randrange(nreq)
